@@ -1,6 +1,7 @@
 package c15
 
 import (
+	"regexp"
 	"fmt"
 	"reflect"
 	"sort"
@@ -16,7 +17,74 @@ import (
 )
 
 var knownT = ev.Matcher[TCase]{}
-var knownS = ev.Matcher[SCase]{}
+var knownS = ev.Matcher[SCase]{
+	// a string default whose text itself starts and ends with a double quote: evaluation hands string defaults over
+	// without their SQL quotes and every later stage takes outer double quotes for quoting
+	"string-default-wrapped-in-double-quotes": func(c SCase, err error) bool {
+		ms := reChangedDefault.FindAllStringSubmatch(err.Error(), -1)
+		if len(ms) == 0 || !strings.Contains(err.Error(), "is not empty: *schema.ModifyTable(alltypes){") {
+			return false
+		}
+		wrapped := map[string]bool{}
+		for _, t := range c.S.Tables {
+			if t.Name == "alltypes" {
+				for _, col := range t.Cols {
+					wrapped[col.Name] = strings.HasPrefix(col.Default, `'"`) && strings.HasSuffix(col.Default, `"'`)
+				}
+			}
+		}
+		head := err.Error()
+		if i := strings.Index(head, "\n"); i > 0 {
+			head = head[:i]
+		}
+		if strings.Count(head, "*schema.Modify") != 1+len(reChangedDefault.FindAllString(head, -1)) || strings.Contains(head, "*schema.Add") || strings.Contains(head, "*schema.Drop") {
+			return false
+		}
+		for _, m := range ms {
+			if !wrapped[m[1]] {
+				return false
+			}
+		}
+		return true
+	},
+}
+
+func init() {
+	// MySQL: a check carrying Enforced{V: false} (what inspection sets for NOT ENFORCED) is written as enforced = true
+	knownS["mysql-not-enforced-check-written-as-enforced"] = func(c SCase, err error) bool {
+		head := err.Error()
+		if i := strings.Index(head, "\n"); i > 0 {
+			head = head[:i]
+		}
+		const pre = "mysql: diff(original, EvalHCL(MarshalHCL(original))) is not empty: *schema.ModifyTable(features){"
+		if c.Dialect != "mysql" || !strings.HasPrefix(head, pre) || !strings.HasSuffix(head, "}") {
+			return false
+		}
+		no := 0
+		for _, t := range c.S.Tables {
+			if t.Name == "features" {
+				for _, ck := range t.Checks {
+					if ck.Enforced == "no" {
+						no++
+					}
+				}
+			}
+		}
+		n := 0
+		for _, k := range strings.Split(strings.TrimSuffix(strings.TrimPrefix(head, pre), "}"), ", ") {
+			switch k {
+			case "*schema.DropCheck", "*schema.ModifyCheck":
+				n++
+			case "*schema.AddCheck":
+			default:
+				return false
+			}
+		}
+		return no > 0 && n == no
+	}
+}
+
+var reChangedDefault = regexp.MustCompile(`\*schema\.ModifyColumn\((c\d+), ChangeDefault\)`)
 
 const rule = "(a) type grid, exhaustive: every TypeSpec of mysql/postgres/sqlite.TypeRegistry x a parameter grid per attribute (size/len {absent,0,1,255}, numeric precision {absent,0,10,38} x scale {absent,0,2}, " +
 	"time/interval precision {absent,0,3,6}, float precision {absent,24,53}, unsigned {false,true}, enum/set value lists incl. quotes and commas): Format(Parse(Format(t))) == Format(t) and the type comes back unchanged through TypeRegistry.Convert/Type (the HCL form). " +
@@ -211,6 +279,9 @@ func genFeatures(t *rapid.T, d string) gm.Table {
 		if rapid.Bool().Draw(t, "cknamed") {
 			ck.Name = fmt.Sprintf("fck%d", i)
 		}
+		if d == "mysql" {
+			ck.Enforced = rapid.SampledFrom([]string{"", "", "no", "yes"}).Draw(t, "enforced")
+		}
 		tb.Checks = append(tb.Checks, ck)
 	}
 	if rapid.Bool().Draw(t, "fk") {
@@ -332,15 +403,43 @@ func genSchema(types map[string][]string) func(t *rapid.T) SCase {
 			switch k := rapid.IntRange(0, 3).Draw(t, "dflt"); {
 			case k != 0:
 			case strings.Contains(lt, "int") || strings.HasPrefix(lt, "numeric") || strings.HasPrefix(lt, "decimal") || strings.HasPrefix(lt, "double") || lt == "real" || strings.HasPrefix(lt, "float"):
-				c.Default = rapid.SampledFrom([]string{"0", "7", "-1", "3.5"}).Draw(t, "ndef")
+				c.Default = rapid.SampledFrom([]string{"0", "7", "-1", "3.5", "3.14159265358979", "1e5", "0.000001", "18446744073709551616"}).Draw(t, "ndef")
 			case strings.Contains(lt, "char") || strings.Contains(lt, "text"):
-				c.Default = rapid.SampledFrom([]string{"'x'", "''", "'it''s'", "'a;b'", `'say "hi"'`, "'back\\slash'"}).Draw(t, "sdef")
+				c.Default = rapid.SampledFrom([]string{"'x'", "''", "'it''s'", "'a;b'", `'say "hi"'`, "'back\\slash'", "'true'", "'null'", "'1'", "'0x10'", `'"x"'`, "'1e5'", "'${x}'", "' '"}).Draw(t, "sdef")
 			case strings.Contains(lt, "time") || strings.Contains(lt, "date"):
 				c.Default, c.DefaultRaw = rapid.SampledFrom([]string{"CURRENT_TIMESTAMP", "now()"}).Draw(t, "tdef"), true
 			}
 			all.Cols = append(all.Cols, c)
 		}
-		s.Tables = append(s.Tables, all, genFeatures(t, d))
+		feat := genFeatures(t, d)
+		// the two recorded findings are kept apart so that each case shows at most one of them
+		for _, c := range all.Cols {
+			if strings.HasPrefix(c.Default, `'"`) {
+				for i := range feat.Checks {
+					feat.Checks[i].Enforced = ""
+				}
+			}
+		}
+		s.Tables = append(s.Tables, all, feat)
+		if d != "sqlite" && rapid.IntRange(0, 3).Draw(t, "twin") == 0 {
+			var twin []string
+			for _, tb := range s.Tables {
+				if rapid.Bool().Draw(t, "twinned") {
+					twin = append(twin, tb.Name)
+				}
+			}
+			// the recorded findings are shown by the one-schema cases; a realm case carries neither
+			clean := true
+			for _, c := range all.Cols {
+				clean = clean && !strings.HasPrefix(c.Default, `'"`)
+			}
+			for _, ck := range feat.Checks {
+				clean = clean && ck.Enforced != "no"
+			}
+			if clean {
+				return SCase{Dialect: d, S: s, Twin: twin}
+			}
+		}
 		return SCase{Dialect: d, S: s}
 	}
 }
@@ -424,6 +523,9 @@ func TestCheck(t *testing.T) {
 		}
 		sort.Strings(ts)
 		col.Class(c.Dialect + "/schema")
+		if len(c.Twin) > 0 {
+			col.Class(c.Dialect + "/realm-of-two-schemas-with-same-named-tables")
+		}
 		if ft := c.S.Table("features"); ft != nil {
 			for _, p := range ft.PK {
 				if p.Prefix > 0 {
@@ -449,7 +551,7 @@ func TestCheck(t *testing.T) {
 				}
 			}
 		}
-		col.NonTrivial(fmt.Sprintf("%s|%s", c.Dialect, strings.Join(ts, ",")))
+		col.NonTrivial(fmt.Sprintf("%s|%s|%v", c.Dialect, strings.Join(ts, ","), c.Twin))
 		col.Sample(c.Dialect+"/schema", SCase{Dialect: c.Dialect, S: gm.Schema{Tables: c.S.Tables[len(c.S.Tables)-1:]}})
 		return err
 	}
@@ -457,6 +559,22 @@ func TestCheck(t *testing.T) {
 	for _, d := range []string{"mysql", "postgres", "sqlite"} {
 		if !ev.Each(col, "schema-base", SCase{Dialect: d, S: base(d)}, checkS, knownS) {
 			return
+		}
+	}
+	// realms of two schemas: the second schema holds a copy of every subset of the base tables, whose foreign keys keep
+	// pointing at the (same-named) tables of the first schema
+	for _, d := range []string{"mysql", "postgres"} {
+		b := base(d)
+		for mask := 1; mask < 1<<len(b.Tables); mask++ {
+			var twin []string
+			for i, tb := range b.Tables {
+				if mask&(1<<i) != 0 {
+					twin = append(twin, tb.Name)
+				}
+			}
+			if !ev.Each(col, "realm-two-schemas", SCase{Dialect: d, S: b, Twin: twin}, checkS, knownS) {
+				return
+			}
 		}
 	}
 	ev.Rapid(t, col, "schema-random", col.N(2500, 300000), genSchema(types), checkS, knownS)
